@@ -1,6 +1,7 @@
 //! `vh` - conformance harness binding the TLA+ specifications in /verif/spec to the
 //! implementation in /repo.  `vh replay <kind>`: spec -> impl; `vh record <kind>`: impl -> spec.
 #![allow(dead_code)]
+mod batch_record;
 mod common;
 mod conc_replay;
 mod gates;
@@ -30,6 +31,7 @@ fn main() {
         ("replay", "track") => track_replay::main(&opts),
         ("replay", "tracker") => tracker_replay::main(&opts),
         ("replay", "conc") => conc_replay::main(&opts),
+        ("record", "batch") => batch_record::main(&opts),
         ("record", "conc") => conc_replay::record(&opts),
         ("replay", "geom") => geom_replay::main(&opts),
         ("replay", "nms") => nms_replay::main(&opts),
